@@ -384,6 +384,9 @@ func (x *Exec) mergeStates(base *scriptNode, c Term, a, b, orig *State) *State {
 	if !ok {
 		return nil
 	}
+	for k, v := range b.interfered {
+		m.interfered[k] = append(m.interfered[k], v...)
+	}
 	m.draws = append(append([]string(nil), a.draws...), b.draws[len(orig.draws):]...)
 	m.path = append(append([]string(nil), orig.path...), fmt.Sprintf("merge@b%d", a.top().block.Index))
 	if a.steps < b.steps {
